@@ -44,6 +44,11 @@ Fixpoint update_path (fs : list (pathT * file)) (p : pathT) (g : file) : list (p
   match fs with [] => [] | (q, f) :: r => if path_eqb q p then (q, g) :: update_path r p g else (q, f) :: update_path r p g end.
 
 Definition parent (p : pathT) : pathT := removelast p.
+(* a directory is renamed with everything below it: every path that starts with [p] starts with [q] afterwards *)
+Fixpoint is_prefix (p r : pathT) : bool :=
+  match p, r with [], _ => true | x :: p', y :: r' => andb (name_eqb x y) (is_prefix p' r') | _ :: _, [] => false end.
+Definition rebase (p q r : pathT) : pathT := if is_prefix p r then q ++ skipn (length p) r else r.
+Definition move_tree (fs : list (pathT * file)) (p q : pathT) : list (pathT * file) := map (fun e => (rebase p q (fst e), snd e)) fs.
 Definition children (fs : list (pathT * file)) (d : pathT) : list (pathT * file) :=
   filter (fun e => andb (path_eqb (parent (fst e)) d) (negb (path_eqb (fst e) []))) fs.
 
@@ -171,7 +176,10 @@ Definition step (pr : params) (s : st) (o : op) : st * result :=
       | Some f =>
           let q := parent p ++ [n] in
           if f_locked f then (s, Refused)
-          else if f_isdir f then (s, Refused)     (* directory rename is outside the model *)
+          else if f_isdir f then
+            (* (nothing can sit below a name that is not there; the model checks the whole subtree so that uniqueness needs no further invariant) *)
+            if existsb (fun e => is_prefix q (fst e)) (files s) then (s, Refused)
+            else (mkst (move_tree (files s) p q) (used s), Accepted)
           else if match lookup (files s) q with Some _ => true | None => false end then (s, Refused)
           else (mkst ((q, f) :: remove_path (files s) p) (used s), Accepted)
       end
